@@ -126,12 +126,8 @@ def injection_oracle(c):
         if _base_logs.get(c.desc[7:].split('|')[0]) is None:
             return None
         base = list(_base_logs.get(c.desc[7:].split('|')[0], []))
-        if spot == '_yatiml_extra' and isinstance(c.tyspec, tuple):
-            # a document key spelt _yatiml_extra never gets past the attribute check: the host itself is not built
-            for x in base:
-                if x[0] == 'init' and x[1] == c.tyspec[1]:
-                    base.remove(x)
-                    break
+        # (a document key spelt _yatiml_extra never gets past the attribute check, so the host itself is not built: the
+        # injected document then makes FEWER calls than the base, which is fine -- only additional calls are findings)
         extra = []
         for x in calls:
             if x in base:
